@@ -42,6 +42,14 @@ P = {
   "Every history of up to 3 (quick) / 4 (thorough) operations over {build(r0), build(r1), build(r0,r1), edit+reload(m)} is replayed on a live graph for every world (with one alternative import list / repaired variant per module) inside the deviation bound; after each operation the live graph is compared with a from-scratch build of the roots so far on the current sources, rebuilds of known roots must be no-ops, and unreachable leftovers must be untouched.",
   "Differential oracle. Error entries compared without referrer. Specifiers that some import loads as an asset are not reloaded (a reload is an attribute-less load).",
   "DESIGN.md §4 C19", TECH + "; exhaustive operation histories up to a depth x deviation-bounded worlds, differential oracle against from-scratch builds"),
+ "C03": (True,
+  "For four fixtures (plain, registry, registry with embedded module graphs + cache misses, npm+node) every assignment of an answer kind to the loader calls the build issues is explored up to the completed number of deviations (one fault anywhere: all; pairs/triples: per tier) with 12 answer kinds for load (+6 for registry metadata), 5 for ensure_cached and 3 npm resolver answers. Every run is checked for: no panic, the build future completes, no unfinished entry / [INTERNAL ERROR], terminal faults become error entries with a referrer, non-interference against the fault-free build.",
+  "Faults beyond the completed deviation bound and worlds beyond the four fixtures are not covered. Registry files ignore response headers by design; files with embedded module information are not parsed.",
+  "DESIGN.md §4 C03", TECH + "; deviation-bounded fault assignment over every loader call (fault enumeration), differential non-interference oracle"),
+ "C04": (True,
+  "For 12 collision worlds every completion order of the gated Loader futures (and, with the queued executor, every order of polling spawned metadata tasks) and every permutation of the builder's hash-map drains is enumerated (Full; deviation-bounded for the two largest); each run's graph observation incl. error referrers, final lockfile content and multiset of lockfile writes must equal the all-ready run.",
+  "Owns: loader completion order, executor task order, hash-map drain order (hook). Does not inject extra suspensions of released futures. Worlds are hand-built to collide; more than ~8 simultaneously outstanding operations are not explored.",
+  "DESIGN.md §4 C04", TECH + "; exhaustive enumeration of completion orders and drain permutations under a controlled scheduler"),
 }
 
 ALL = ["C%02d" % i for i in range(1, 21)]
